@@ -35,7 +35,7 @@ func DecodeListTable(b []byte) (_ format.ListTable, size int, err error) {
 
 	// Table size
 	tableSize, n := decodeSize(b[:end])
-	if n < 0 {
+	if n <= 0 {
 		err = errors.New("decode list: invalid table size")
 		return
 	}
@@ -44,7 +44,7 @@ func DecodeListTable(b []byte) (_ format.ListTable, size int, err error) {
 
 	// Data size
 	dataSize, n := decodeSize(b[:end])
-	if n < 0 {
+	if n <= 0 {
 		err = errors.New("decode list: invalid data size")
 		return
 	}
